@@ -729,7 +729,7 @@ func (p *printer) ref(t *Term) string {
 }
 
 func (p *printer) bind(t *Term, expr string) string {
-	nm := fmt.Sprintf("t!%d", t.id)
+	nm := fmt.Sprintf("tm_%d", t.id)
 	p.defs = append(p.defs, fmt.Sprintf("(define-fun %s () %s %s)", nm, p.sortStr(t.Sort), expr))
 	p.done[t.id] = nm
 	return nm
